@@ -47,6 +47,7 @@ Ltac eqbs := repeat first
   | progress cbn [feqb andb]
   | rewrite andb_false_r | rewrite andb_true_r ].
 Ltac rdeval := rdrw; eqbs.
+Ltac frame_tac := rdrw; repeat first [ rewrite if_not by assumption | rewrite if_not2 by assumption | progress eqbs ]; try reflexivity.
 Ltac fin := rdeval; cbn [getf kty kst kln knx kpv kch ktl kmt]; try reflexivity.
 
 Ltac vld := unfold valid, fresh, Nlen in *;
@@ -498,7 +499,8 @@ Theorem split_both :
     rd h' t Fst = Some ts /\ rd h' t Fln = Some (start - ts) /\ rd h' t Fty = Some tty /\
     rd h' a Fst = Some start /\ rd h' a Fln = Some len /\ rd h' a Fty = Some ntype /\
     rd h' a2 Fst = Some (start + len) /\ rd h' a2 Fln = Some (ts + tlen - (start + len)) /\ rd h' a2 Fty = Some tty /\
-    (forall j g, j <> t -> j <> nr -> j <> a -> j <> a2 -> rd h' j g = rd h j g).
+    rd h' a Fmt = Some 0 /\ rd h' a2 Fmt = Some 0 /\
+    (forall j g, j <> a -> j <> a2 -> ~ (j = t /\ g = Fnx) -> ~ (j = t /\ g = Fln) -> ~ (j = nr /\ g = Fpv) -> rd h' j g = rd h j g).
 Proof.
   intros B1 B2.
   destruct split_pieces as (Sl & Vt & Pt & Nt & Sr & Tl & Tr & Vnr & Lnr).
@@ -577,7 +579,8 @@ Proof.
   split; [fin; exact Hty|].
   split; [fin|]. split; [fin|]. split; [fin|].
   split; [fin|]. split; [fin; f_equal; apply wsub_small; lia|]. split; [fin|].
-  intros j g H1 H2 H3 H4. fin.
+  split; [fin|]. split; [fin|].
+  intros j g H1 H2 H3 H4 H5. frame_tac.
 Qed.
 
 (* only a leading remainder: t -> [t' ; A] *)
@@ -586,8 +589,8 @@ Theorem split_start :
   exists h', token_split h t start len ntype = Some h' /\ length h' = S (length h) /\
     seg h' p (l ++ t :: a :: r) 0 /\
     rd h' t Fst = Some ts /\ rd h' t Fln = Some (start - ts) /\ rd h' t Fty = Some tty /\
-    rd h' a Fst = Some start /\ rd h' a Fln = Some len /\ rd h' a Fty = Some ntype /\
-    (forall j g, j <> t -> j <> nr -> j <> a -> rd h' j g = rd h j g).
+    rd h' a Fst = Some start /\ rd h' a Fln = Some len /\ rd h' a Fty = Some ntype /\ rd h' a Fmt = Some 0 /\
+    (forall j g, j <> a -> ~ (j = t /\ g = Fnx) -> ~ (j = t /\ g = Fln) -> ~ (j = nr /\ g = Fpv) -> rd h' j g = rd h j g).
 Proof.
   intros B1 B2.
   destruct split_pieces as (Sl & Vt & Pt & Nt & Sr & Tl & Tr & Vnr & Lnr).
@@ -649,7 +652,8 @@ Proof.
   split; [fin; f_equal; apply wsub_small; lia|].
   split; [fin; exact Hty|].
   split; [fin|]. split; [fin|]. split; [fin|].
-  intros j g H1 H2 H3. fin.
+  split; [fin|].
+  intros j g H1 H2 H3 H4. frame_tac.
 Qed.
 
 (* only a trailing remainder: t keeps the head (with the new kind), A is the rest (with the old kind) *)
@@ -658,8 +662,8 @@ Theorem split_stop :
   exists h', token_split h t start len ntype = Some h' /\ length h' = S (length h) /\
     seg h' p (l ++ t :: a :: r) 0 /\
     rd h' t Fst = Some ts /\ rd h' t Fln = Some len /\ rd h' t Fty = Some ntype /\
-    rd h' a Fst = Some (start + len) /\ rd h' a Fln = Some (ts + tlen - (start + len)) /\ rd h' a Fty = Some tty /\
-    (forall j g, j <> t -> j <> nr -> j <> a -> rd h' j g = rd h j g).
+    rd h' a Fst = Some (start + len) /\ rd h' a Fln = Some (ts + tlen - (start + len)) /\ rd h' a Fty = Some tty /\ rd h' a Fmt = Some 0 /\
+    (forall j g, j <> a -> ~ (j = t /\ g = Fnx) -> ~ (j = t /\ g = Fln) -> ~ (j = t /\ g = Fty) -> ~ (j = nr /\ g = Fpv) -> rd h' j g = rd h j g).
 Proof.
   intros B1 B2.
   destruct split_pieces as (Sl & Vt & Pt & Nt & Sr & Tl & Tr & Vnr & Lnr).
@@ -724,7 +728,8 @@ Proof.
   split; [fin; f_equal; rewrite wsub_small by lia; lia|].
   split; [fin|].
   split; [fin|]. split; [fin; f_equal; apply wsub_small; lia|]. split; [fin|].
-  intros j g H1 H2 H3. fin.
+  split; [fin|].
+  intros j g H1 H2 H3 H4 H5. frame_tac.
 Qed.
 
 (* the requested range is the whole token: only the kind changes *)
@@ -860,7 +865,8 @@ Theorem prune_spec h a pvt x rr b :
   exists h', tokens_prune h x e = Some h' /\ length h' = length h /\
     seg h' 0 (a ++ pvt :: b) 0 /\ rd h' (hd pvt a) Ftl = Some (List.last b pvt) /\
     seg h' 0 (x :: rr) 0 /\
-    (forall j g, j <> pvt -> j <> hd 0 b -> j <> x -> j <> e -> j <> hd pvt a -> rd h' j g = rd h j g).
+    (forall j g, ~ (j = pvt /\ g = Fnx) -> ~ (j = hd 0 b /\ g = Fpv) -> ~ (j = x /\ g = Fpv) -> ~ (j = e /\ g = Fnx) -> ~ (j = hd pvt a /\ g = Ftl) ->
+                 rd h' j g = rd h j g).
 Proof.
   intros e HS ND Htl.
   set (nb := hd 0 b).
@@ -994,5 +1000,5 @@ Proof.
       + cbn [seg] in Se |- *. destruct Se as (_ & Pe & _). split; [apply VV, Ve|].
         assert (e <> x) by (intro X; apply (Dl x (or_introl eq_refl)); rewrite <- X; left; reflexivity).
         split; [fin; rewrite Pe; f_equal; apply last_cons_default|]. split; [fin|exact I]. }
-  intros j g H1 H2 H3 H4 H5. fold nb in H2. fin.
+  intros j g H1 H2 H3 H4 H5. fold nb in H2. frame_tac.
 Qed.
